@@ -20,7 +20,7 @@ TEXT = {
  "C11": ("proof", "Small partial. Verus, unbounded: Dart is_contiguous_enum and JS gen_enum's is_contiguous flag are true iff discriminant(j) == j for every variant (the index shortcut is value-preserving); the fold step of Kotlin's EnumVariants::new keeps the same invariant; ast::Enum::new assigns explicit-or-previous+1 discriminants (== rustc) for any number of variants."),
  "C12": ("proof", "Kani harness-checked step contract of write_str on the real code (bounded buffer: a bounded stand-in, not counted as proved), fixed-buffer and Rust-owned writers end to end (bounded), accessors (complete); Verus lemma (unbounded number of writes): content == chunks before the first refused growth, no partial chunk, sticky flag."),
  "C13": ("proof", "Partial (evaluation and inheritance). Verus, all depths: satisfies_cfg == denotational semantics of not/any/all/*/auto/name/name=value incl. termination; for_inheritance rules; the gate reports unsupported backend features (incl. 'static slices); lower_all_methods skips exactly the methods disabled for the backend. Kani: `supports = <name>` selects the documented flag for all 24 names and all flag values (complete); backend-name atoms match exactly (all ASCII strings of length <= 4, bounded)."),
- "C15": ("proof", "Partial (per-function panic freedom). Every Verus unit turns unreachable!/assert!/expect/index/overflow sites of its functions into obligations; Kani units carry assertion/overflow/bounds checks: lower_type family (5 expect/unreachable sites under the LookupId contract), struct_field_info (2 assert!, from_size_align.unwrap), LifetimeTransitivityIterator::next indexing, formatter tables, satisfies_cfg, visit_param (known finding: its unreachable! arm is reachable), gen_c_to_js_deref_for_type, gen_result_ty; Kani bounded: tool::ErrorStore never panics on its RefCells."),
+ "C15": ("proof", "Partial (per-function panic freedom). Every Verus unit turns unreachable!/assert!/expect/index/overflow sites of its functions into obligations; Kani units carry assertion/overflow/bounds checks: lower_type family (5 expect/unreachable sites under the LookupId contract), struct_field_info (2 assert!, from_size_align.unwrap), LifetimeTransitivityIterator::next indexing, formatter tables, satisfies_cfg, visit_param, Dart alloc_name and JS gen_c_to_js_for_return_type (three known findings: reachable unreachable!/unwrap sites, replayed), gen_c_to_js_deref_for_type, gen_result_ty; Kani bounded: tool::ErrorStore never panics on its RefCells."),
  "C16": ("proof", "Kani: every From/Into/Deref/DerefMut/Drop impl of runtime/src/slices.rs round-trips pointer/len for every length (symbolic-size allocation, complete) and contents (bounded backing storage: bounded stand-ins); NULL,0 accepted as a valid empty Rust slice / Box (complete); diplomat_is_str == RFC 3629 acceptor for all byte strings of length <= 4 (5 thorough) (bounded); diplomat_alloc/free."),
 }
 NA = {
